@@ -13,10 +13,14 @@ txt = ("# Seeded changes\n\nEach directory holds `patch.diff` (against the repos
 open("/verif/seeded/README.md", "w").write(txt)
 d = open("/verif/DESIGN.md").read()
 i = d.index("## 10. Seeded changes")
+j = d.find("\n## ", i + 5)   # the sections after 10 stay
+rest = d[j:] if j >= 0 else "\n"
 d = d[:i] + ("## 10. Seeded changes and which checks catch them\n\nEach entry is a change that keeps the 79 tests green, was written by a sub-agent "
              "that saw only the property text and a scratch worktree (nothing of /verif), and was confirmed by hand: the suite passes with it, "
              "its own demonstration fails with it and passes without it (`tools/try_wt.sh`), and the listed check reports it on every run. "
              "\"after strengthening\" means the check as it stood missed the change and was extended (last column); nothing was loosened.\n\n"
-             + head + body + f"\n{len(rows)} seeded changes kept so far.\n")
+             + head + body + f"\n{len(rows)} seeded changes kept so far: waves 1-8 and 10 were written per property, wave 9 (S91-S106) per source "
+             f"region. Over all waves roughly half of the changes were missed by the checks as they stood when the change arrived; every one is "
+             f"caught now (`tools/all_seeds.sh`).\n") + rest
 open("/verif/DESIGN.md", "w").write(d)
 print(len(rows), "seeds")
